@@ -65,8 +65,16 @@ pub fn new(parameters: &RawParameters, ctx: &dyn Context) -> Result<Op, Error> {
     let thesteps = definition.split_into_steps();
     let mut steps = Vec::new();
 
+    // The one-way modifiers given with the invocation of the pipeline (i.e. found among
+    // the globals) concern the pipeline as a whole, and are honoured by the enclosing
+    // pipeline. The steps must not inherit them: they would be skipped once more, from
+    // the inside, when an inverted macro runs its body in the opposite direction
+    let mut inherited = parameters.next(definition);
+    inherited.globals.remove("omit_fwd");
+    inherited.globals.remove("omit_inv");
+
     for step in thesteps {
-        let step_parameters = parameters.next(&step);
+        let step_parameters = inherited.next(&step);
         steps.push(Op::op(step_parameters, ctx)?);
     }
 
